@@ -213,6 +213,11 @@ class IndentAndNameChecker(BaseChecker):
         # if the line ends with '\' then we force the indent of the next line
         self.force_next_indent = 0
 
+        # Indentation of the last "help" keyword and of the first line of its text (None until that line is seen).
+        # As in the Kconfig language, the help text consists of the lines indented at least like its first line.
+        self.help_keyword_indent = 0
+        self.help_text_indent = None
+
         # menu items which increase the indentation of the next line
         self.re_increase_level = re.compile(
             r"""^\s*
@@ -489,10 +494,26 @@ class IndentAndNameChecker(BaseChecker):
         else:
             current_indent = 0
 
+        # the extent of a help text is determined like the Kconfig parsers do it, i.e. with tabulators expanded
+        expanded_line = line.expandtabs()
+        visual_indent = len(expanded_line) - len(expanded_line.lstrip())
+
         if current_level > 0 and self.level_stack[-1] == "help":
-            if current_indent >= current_level * SPACES_PER_INDENT:
+            expected_indent = current_level * SPACES_PER_INDENT
+            if self.help_text_indent is None and (
+                current_indent >= expected_indent or visual_indent > self.help_keyword_indent
+            ):
+                self.help_text_indent = visual_indent
+            if self.help_text_indent is not None and visual_indent >= self.help_text_indent:
                 # this line belongs to 'help'
                 self.force_next_indent = 0
+                if current_indent < expected_indent:
+                    raise InputError(
+                        self.path_in_idf,
+                        line_number,
+                        "Indentation consists of {} spaces instead of {}".format(current_indent, expected_indent),
+                        (" " * expected_indent) + line.lstrip(),
+                    )
                 return
 
         if self.force_next_indent > 0:
@@ -520,6 +541,9 @@ class IndentAndNameChecker(BaseChecker):
         m = self.re_increase_level.search(line)
         if m:
             current_level = self.update_level_for_inc_pattern(m.group(1))
+            if m.group(1) == "help":
+                self.help_keyword_indent = visual_indent
+                self.help_text_indent = None
         else:
             m = self.re_decrease_level.search(line)
             if m:
